@@ -8,7 +8,7 @@
    lifted to every history (C01_reachable).  The older `…_partial` statements are kept: other
    properties' files refer to them. *)
 From Coq Require Import ZArith List.
-From BS Require Import Word BumpSpec ChunkSpec Arena ArenaInv ArenaExt ArenaInv2 ArenaSplit LibRefine AllocRefine.
+From BS Require Import Word BumpSpec ChunkSpec Arena ArenaInv ArenaExt ArenaInv2 ArenaSplit LibRefine AllocRefine ArenaReserve.
 From BS.gen Require AllocSites.
 Import ListNotations.
 Open Scope Z_scope.
@@ -155,6 +155,18 @@ Theorem C01_source_grow_down_is_the_models :
   AllocSites.grow_down_nonoverlapping (new_addr + nsize) ptr = Ok (new_addr + nsize <? ptr).
 Proof. exact grow_down_refines. Qed.
 
+(* reserve: the walk over the chunk list as the code writes it (checked_sub of what the current chunk has left, then of
+   every later chunk's capacity; the shape of the loop is checked against the source by tools/allocsites.py) asks for
+   a new chunk exactly when the request exceeds the sum, and then for exactly the difference - the closed form the
+   arena model uses *)
+Theorem C01_reserve_walk_closed_form :
+  forall n remaining_cur caps,
+  0 <= n -> 0 <= remaining_cur -> Forall (fun x => 0 <= x) caps ->
+  reserve_walk n remaining_cur caps =
+  let avail := remaining_cur + sumZ caps in
+  if n <=? avail then None else Some (n - avail).
+Proof. exact reserve_walk_closed_form. Qed.
+
 Print Assumptions C01_live_blocks.
 Print Assumptions C01_step_inv_partial.
 Print Assumptions C01_reachable_partial.
@@ -174,3 +186,4 @@ Print Assumptions C01_source_is_last_is_the_models.
 Print Assumptions C01_source_dealloc_position_is_the_models.
 Print Assumptions C01_source_grow_up_is_the_models.
 Print Assumptions C01_source_grow_down_is_the_models.
+Print Assumptions C01_reserve_walk_closed_form.
